@@ -3,13 +3,15 @@
 
   genoverlay.py <outdir> [mutation]
 
-(a) every non-test file of internal/replication that mentions sync.Mutex / sync.RWMutex
-    (today: manager.go) is copied with them textually replaced by verifsync.Mutex /
+(a) every non-test file of internal/replication and of internal/replication/drivers (the
+    batching layer, drivers/batcher.go, is part of the explored stack) that mentions
+    sync.Mutex / sync.RWMutex (today: manager.go, drivers/batcher.go) is copied with them
+    textually replaced by verifsync.Mutex /
     verifsync.RWMutex (channel based, see verifsync.go.txt); sync.WaitGroup stays the
     real one (synctest handles WaitGroups of the bubble).
 (b) the virtual package internal/verifsync is added.
 (c) detection self-test only (K5_MUTATION / 2nd argument, see DESIGN §8): a mutated copy of
-    pipeline.go (a,b,c,d,f) or manager.go (e) is put in the overlay. Never used by ./check;
+    pipeline.go (a,b,c,d,f), manager.go (e) or drivers/batcher.go (g,h) is put in the overlay. Never used by ./check;
     run.sh keeps such builds in their own directory and binary.
 Nothing under /repo is written.
 """
@@ -51,13 +53,20 @@ def shim(text, name):
 for stale in os.listdir(out):
     if stale.endswith(".go"):
         os.remove(os.path.join(out, stale))
+# keys are paths relative to internal/replication ("manager.go", "drivers/batcher.go")
 sources = {}
-for fn in sorted(os.listdir(RDIR)):
-    if not fn.endswith(".go") or fn.endswith("_test.go"):
-        continue
-    sources[fn] = open(os.path.join(RDIR, fn)).read()
+for sub in ("", "drivers"):
+    d = os.path.join(RDIR, sub)
+    if not os.path.isdir(d):
+        die("internal/replication/%s not found" % sub)
+    for fn in sorted(os.listdir(d)):
+        if not fn.endswith(".go") or fn.endswith("_test.go"):
+            continue
+        sources[os.path.join(sub, fn)] = open(os.path.join(d, fn)).read()
 if "manager.go" not in sources:
     die("internal/replication/manager.go not found")
+if "drivers/batcher.go" not in sources:
+    die("internal/replication/drivers/batcher.go not found (the batching layer moved: teach genoverlay.py and k5/world_test.go)")
 
 # ---- (b) shim package -----------------------------------------------------------------
 open(os.path.join(out, "verifsync", "verifsync.go"), "w").write(open(os.path.join(here, "verifsync.go.txt")).read())
@@ -105,6 +114,16 @@ if mutation:
         sources["pipeline.go"] = sub1(r"\n\t+Order: pointer\.For\(paginate\.Order\(paginate\.OrderAsc\)\),", "", p, "Order")
         sources["pipeline.go"] = sources["pipeline.go"].replace('\t"github.com/formancehq/go-libs/v5/pkg/types/pointer"\n', "").replace('\t"github.com/formancehq/go-libs/v5/pkg/storage/bun/paginate"\n', "")
         mutated.add("pipeline.go")
+    elif mutation == "g":  # batching layer: a sub-batch refused by the exporter is reported as delivered
+        bb = sources["drivers/batcher.go"]
+        bb2 = bb.replace("\t\t\tlog.SetError(err)\n", "\t\t\tlog.SetResult(nil)\n", 1)
+        if bb2 == bb:
+            die("mutation g: pattern not found")
+        sources["drivers/batcher.go"] = bb2
+        mutated.add("drivers/batcher.go")
+    elif mutation == "h":  # batching layer: only the first log of the page decides the page's error
+        sources["drivers/batcher.go"] = sub1(r"for _, err := range itemsErrors \{", "for _, err := range itemsErrors[:1] {", sources["drivers/batcher.go"], "itemsErrors loop")
+        mutated.add("drivers/batcher.go")
     else:
         die("unknown mutation " + mutation)
     print("genoverlay: SELF-TEST MUTATION %s ACTIVE" % mutation, file=sys.stderr)
@@ -114,8 +133,9 @@ for fn, text in sources.items():
     new = shim(text, fn)
     if new is None and fn not in mutated:
         continue
-    open(os.path.join(out, fn), "w").write(new if new is not None else text)
-    replace[os.path.join(RDIR, fn)] = os.path.join(out, fn)
+    flat = fn.replace(os.sep, "_")
+    open(os.path.join(out, flat), "w").write(new if new is not None else text)
+    replace[os.path.join(RDIR, fn)] = os.path.join(out, flat)
     if new is not None:
         shimmed.append(fn)
 # no file uses a sync mutex any more: nothing to shim (the run's watchdog tells if
